@@ -34,6 +34,7 @@ import Pandora.Proofs.C02Big
 import Pandora.Bridge.C02Const
 import Pandora.Proofs.C02R6Compose
 import Pandora.Proofs.C02R6Solo
+import Pandora.Proofs.C02R6Pub
 
 set_option linter.unusedVariables false
 
@@ -1086,4 +1087,54 @@ example : (soloCall leafOps .next 4 ⟨[Leaf.fin [] 5 0 (some 0), Leaf.fin [0] 0
     (soloCall leafOps .left 3 ⟨[Leaf.fin [0] 0 1 (some 5)], [0], true⟩ .idle 9).2 = .cnt 0 := by decide
 
 end solo
+/-! ## H. A starting unlimited leaf and a concurrent `Left`: order of the stores and of the loads (round 6) -/
+
+section publish
+open Pandora.Model.C02.Pub Pandora.Proofs.C02R6 Pandora.Bridge.C02Leaf
+
+/-- "a `Left` that runs while another caller starts the leaf — the starting caller performing the stores `w` one by one,
+`Left` the loads `r` one by one, in any interleaving — answers what an ATOMIC `Left` answers either before the start
+(flag down, finish = the construction time `f0`) or after it (flag up, finish = `v`)" -/
+def C02_publish_statement (w : List WAcc) (r : List RAcc) : Prop :=
+  ∀ (f0 v : Int) (sched : List Bool) (s : Bool) (f now : Int),
+    (urun v (uinit f0 w r) sched).seenStarted = some s → (urun v (uinit f0 w r) sched).seenFinish = some f →
+    (s = true → f = v) ∧ (leftOfView s f now = leftOfView false f0 now ∨ leftOfView s f now = leftOfView true v now)
+
+/-- **With the orders of the SOURCE** (`Gen/C02Leaf.lean leafOrder`, re-extracted on every check: first `Next` and
+`Start` store the finish time before they raise the started flag, `Left` loads the flag before the finish time) **a
+`Left` concurrent with the start of an unlimited leaf is atomic**: it never reports 0 ("finished") from a raised flag and
+the stale construction-time finish.  This is what lets `C02_leaf_conc_linearizable` treat the once body and `Left` as
+single actions for the unlimited leaf (fix 4d9aa06). -/
+theorem C02_unlimited_left_atomic :
+    C02_publish_statement (wOrder (orderOf "unlimitedSchedule" "Next")) (rOrder (orderOf "unlimitedSchedule" "Left")) ∧
+    C02_publish_statement (wOrder (orderOf "unlimitedSchedule" "Start")) (rOrder (orderOf "unlimitedSchedule" "Left")) := by
+  obtain ⟨h1, h2, h3⟩ := unlimited_publish_order
+  rw [h1, h2, h3]
+  have h : C02_publish_statement [.storeFinish, .storeStarted] [.loadStarted, .loadFinish] :=
+    fun f0 v sched s f now hs hf => ⟨publish_safe f0 v sched s f hs hf, left_atomic f0 v sched s f now hs hf⟩
+  exact ⟨h, h⟩
+
+/-- the order the code had before fix 4d9aa06 (flag first) is NOT safe: `Left` can see the raised flag with the
+construction-time finish and report 0 while the part has 100 ns to go -/
+theorem C02_publish_flag_first_counterexample :
+    ¬ C02_publish_statement [.storeStarted, .storeFinish] [.loadStarted, .loadFinish] := by
+  intro h
+  have := (h 0 100 [true, false, false, true] true 0 50 (by decide) (by decide)).1 rfl
+  exact absurd this (by decide)
+
+/-- … nor is loading the finish time before the flag -/
+theorem C02_publish_finish_read_first_counterexample :
+    ¬ C02_publish_statement [.storeFinish, .storeStarted] [.loadFinish, .loadStarted] := by
+  intro h
+  have := (h 0 100 [false, true, true, false] true 0 50 (by decide) (by decide)).1 rfl
+  exact absurd this (by decide)
+
+-- non-vacuity: a `Left` that falls between the two stores sees the flag down (answers -1); one that comes after both
+-- sees (up, 100)
+example : (urun 100 (uinit 0 [.storeFinish, .storeStarted] [.loadStarted, .loadFinish]) [true, false, true, false]).seenStarted = some false ∧
+    (urun 100 (uinit 0 [.storeFinish, .storeStarted] [.loadStarted, .loadFinish]) [true, false, true, false]).seenFinish = some 100 ∧
+    (urun 100 (uinit 0 [.storeFinish, .storeStarted] [.loadStarted, .loadFinish]) [true, true, false, false]).seenStarted = some true ∧
+    (urun 100 (uinit 0 [.storeFinish, .storeStarted] [.loadStarted, .loadFinish]) [true, true, false, false]).seenFinish = some 100 := by decide
+
+end publish
 end Pandora.Props.C02
